@@ -280,6 +280,12 @@ impl Builder {
                 let gs = self.goals::<K>(&g[1]);
                 InferredConj::from_array(&gs).cast_into()
             }
+            "twice" => {
+                // ONE goal value entered two times in a row (g[2] is the renamed copy the specification uses)
+                let a = self.goal::<K>(&g[1]);
+                let b = a.clone();
+                InferredConj::from_array(&[a, b]).cast_into()
+            }
             "rawconj" => {
                 let a = self.goal::<K>(&g[1]);
                 let b = self.goal::<K>(&g[2]);
